@@ -228,6 +228,27 @@ pub fn run(tier: &str) -> i32 {
                 // original: reordered / thinned lists spend outputs that do not exist yet,
                 // which is outside the domain and traps by design)
                 if (!want || name == "valid") && (n <= 9 || name.starts_with("repeat") || name == "valid") {
+                    // a rejected variant that carries the genuine block's header (root left alone)
+                    // must not spoil the genuine block: delivered right after it, the valid block
+                    // is accepted ("every valid block is accepted", whatever arrived before)
+                    if !want && !recompute && name != "valid" && name != "empty" && (n <= 9 || name.starts_with("repeat")) {
+                        w = World::new(WorldCfg::regtest(2));
+                        let first = w.deliver_direct(&block, None);
+                        let genuine = Block { header, txdata: txs.clone() };
+                        if genuine.block_hash() == block.block_hash() {
+                            match (first, w.deliver_direct(&genuine, None)) {
+                                (Ok(false), Ok(true)) => out.count("valid_block_accepted_after_its_rejected_twin"),
+                                (a, b) => {
+                                    out.set_history(ctx.clone());
+                                    out.violation(
+                                        "valid-block-refused-after-its-rejected-twin",
+                                        None,
+                                        json!({"twin": format!("{:?}", a), "valid_block": format!("{:?}", b)}),
+                                    );
+                                }
+                            }
+                        }
+                    }
                     // twice: on a fresh canister, and on one to which the header of this block
                     // was announced beforehand (a block whose header is already known gets the
                     // same structural checks)
@@ -277,7 +298,7 @@ pub fn run(tier: &str) -> i32 {
     out.samples.push(json!({"transactions": 6, "mutation": "repeat last 2", "root": "left alone", "expected": "rejected: DuplicateTransactions"}));
     rep.out.merge(out);
     rep.evaluations = rep.out.states;
-    rep.rule = "for n = 1..17 (quick) / 1..65 (thorough) transactions (legacy and segwit): the valid block; repetition of the trailing 2^k leaves for every k (all merkle-preserving duplications and their non-preserving siblings), the same with the copies' witnesses altered (same txid, other wtxid), closed under composition to depth 2; every removal, adjacent swap, rotation; coinbase moved, duplicated, second coinbase; a duplicate in the middle; the empty list; each with the header's root left alone and recomputed (header re-mined); through BlockValidator::validate_block and state::insert_block (on a fresh canister, and on one that was announced the block's header before); distinct = distinct block bytes".into();
+    rep.rule = "for n = 1..17 (quick) / 1..65 (thorough) transactions (legacy and segwit): the valid block; repetition of the trailing 2^k leaves for every k (all merkle-preserving duplications and their non-preserving siblings), the same with the copies' witnesses altered (same txid, other wtxid), closed under composition to depth 2; every removal, adjacent swap, rotation; coinbase moved, duplicated, second coinbase; a duplicate in the middle; the empty list; each with the header's root left alone and recomputed (header re-mined); through BlockValidator::validate_block and state::insert_block (on a fresh canister, on one that was announced the block's header before, and the valid block right after a rejected variant with the same header); distinct = distinct block bytes".into();
     rep.bounds = json!({"tier": tier, "max_transactions": max_n});
     rep.assume("reference: independent merkle routine + the four clauses of the statement");
     rep.assume("transactions that differ only in signature data (same ntxid) cannot occur in a transaction-valid block and are not judged");
@@ -286,6 +307,7 @@ pub fn run(tier: &str) -> i32 {
     rep.floor("accepted_variants", 100);
     rep.floor("rejected_variants", 500);
     rep.floor("insert_block_agreements", 500);
+    rep.floor("valid_block_accepted_after_its_rejected_twin", 100);
     rep.floor("insert_block_agreements_with_the_header_announced_before", 250);
     rep.finish()
 }
